@@ -26,7 +26,6 @@ type c11Case struct {
 	Keys  []int     `json:"keys,omitempty"`  // order mode: key indices in insertion order
 	A     int       `json:"a,omitempty"`     // pool mode
 	B     int       `json:"b,omitempty"`     // pool mode
-	Group int       `json:"group,omitempty"` // informational
 }
 
 type c11Fail struct {
@@ -73,15 +72,13 @@ func c11Check(ct *cgenType, ptr reflect.Value) (*c11Fail, []byte) {
 			return &c11Fail{"consumed-mismatch", rel + sfx, fmt.Sprintf("decoding the %d-byte encoding %s%s consumed %d bytes", len(enc), c11Hex(enc), sfx, n)}, enc
 		}
 		if d := cgenDiff(ptr.Elem(), out.Elem(), ""); d != "" {
-			return &c11Fail{"value-mismatch", "field " + c11StripIdx(d) + sfx, fmt.Sprintf("decode(encode(x)) differs from x at %s (encoding %s%s)", d, c11Hex(enc), sfx)}, enc
+			return &c11Fail{"value-mismatch", "field " + d + sfx, fmt.Sprintf("decode(encode(x)) differs from x at %s (encoding %s%s)", d, c11Hex(enc), sfx)}, enc
 		}
 	}
 	return nil, enc
 }
 
 func c11Hex(b []byte) string { return cgenHex(b) }
-
-func c11StripIdx(p string) string { return p }
 
 func c11FatalKey(why string) string {
 	if i := strings.Index(why, " in "); i > 0 {
@@ -342,7 +339,6 @@ func TestVerif_C11(t *testing.T) {
 		t.Fatal(err)
 	}
 	idx := uint64(0)
-	perType := map[string][2]uint64{}
 	// (i) round trips
 	for _, ct := range cgenAll {
 		kk := k
@@ -361,7 +357,7 @@ func TestVerif_C11(t *testing.T) {
 		}
 		groups := cgenGroups(ct.T, ct.Ctx)
 		var nvals, npts uint64
-		for gi, g := range groups {
+		for _, g := range groups {
 			idx++
 			if !r.Mine(idx) {
 				continue
@@ -377,9 +373,8 @@ func TestVerif_C11(t *testing.T) {
 				}
 				return true
 			})
-			_ = gi
 		}
-		perType[ct.Name] = [2]uint64{nvals, npts}
+		_ = npts
 		r.Extra("sum_values."+ct.Name, nvals)
 		if r.Shard == 0 {
 			r.Extra("choice_points_minimal."+ct.Name, len(groups))
@@ -411,10 +406,4 @@ func TestVerif_C11(t *testing.T) {
 			c11RunPool(r, a, b)
 		}
 	}
-	var names []string
-	for n := range perType {
-		names = append(names, n)
-	}
-	sort.Strings(names)
-	_ = strings.Join
 }
